@@ -234,6 +234,14 @@ Apply(t, e) ==
 
 StyleOnly == {"stylize", "copy_styles", "highlight"}
 
+\* calls that return a NEW object and leave the old one alive; "swap" continues with the old one:
+\* an edit of one must never show on the other (no shared span list / text)
+Deriving == {"new", "assemble", "join", "split", "divide", "index", "slice", "copy"}
+Derives(e, r) == \/ e.k \in (Deriving \ {"split", "divide"})
+                 \/ (e.k = "append_text" /\ e.via = "add")
+                 \/ (e.k \in {"split", "divide"} /\ e.pick >= 1 /\ e.pick <= Len(r.pieces))
+
+
 \* ---- observation and comparison (property part) -------------------------------------------
 \* what can be seen of a character from outside: code point and effective style
 Eff(t) == [i \in DOMAIN t.chars |-> Under(t.chars[i], t.base)]
